@@ -821,6 +821,8 @@ def cl4(P, C):
            "with order[n]; 0 -> bsplvb_simple with order[n]+1; >= 2 -> bspline_deriv with index centers[n]-order[n]+i; gradient: lane 0 and "
            "lanes != 1+n take the value basis, lane 1+n the derivative basis; kernels receive knots[n], nknots[n], x[n], centers[n] of the "
            "same dimension", floor=10)
+    C.rule("CL-7", "in the arbitrary-order derivative entry points the local basis is filled by the kernels only; a constant fill (shortcut for "
+           "derivatives that vanish identically) is allowed only where the derivative order strictly exceeds the spline order", floor=2)
     for f in sorted(entry_points(P), key=lambda f: (f.cls, f.name, str(f.targs))):
         is_ev = "evaluator_type" in (f.cls or "")
         name = ("evaluator::" if is_ev else "table::") + "%s<%s>" % (f.name, ",".join(str(t) for t in f.targs) or (re.findall(r"evaluator_type<(\w*)>", f.cls or "") or [""])[0])
@@ -856,6 +858,38 @@ def cl4(P, C):
                 else:
                     ok = ok and cs.get("(derivatives[n]==1)") is False and cs.get("((derivatives==nullptr)||(derivatives[n]==0))") is False
             C.ob("CL-4", name, "%s" % nm, ok, f.loc(i), det)
+        if f.name == "ndsplineeval_deriv":
+            # CL-7: anything else that fills the local basis (a shortcut for derivatives that vanish) must be confined to derivative > order
+            shortcuts = []
+            for i in f.walk():
+                n_ = f.nodes[i]
+                cal = n_.get("callee")
+                tgt = None
+                if cal and cal["name"] in ("fill", "fill_n", "memset", "bzero") and f.args(i):
+                    tgt = f.args(i)[0]
+                else:
+                    ap = ts.assign_parts(f, i)
+                    if ap and ap[1] is not None and "localbasis[" in f.render(ap[0]).replace(" ", "") and \
+                            (f.nodes[f.strip(ap[1])].get("callee") or {}).get("name") != "bspline_deriv":
+                        tgt = ap[0]
+                if tgt is None or "localbasis" not in f.render(tgt):
+                    continue
+                guarded = False
+                for a in f.ancestors(i):
+                    if f.k(a) != "IfStmt" or f.nodes[a]["then"] not in [i] + list(f.ancestors(i)):
+                        continue
+                    c = f.nodes[f.strip(f.nodes[a]["cond"])]
+                    if c["k"] == "BinaryOperator" and c["op"] in (">", "<"):
+                        l = f.render(c["ch"][0]).replace("this->", "").replace("table.", "").replace(" ", "")
+                        r = f.render(c["ch"][1]).replace("this->", "").replace("table.", "").replace(" ", "")
+                        if (c["op"] == ">" and l == "derivatives[n]" and r == "order[n]") or (c["op"] == "<" and l == "order[n]" and r == "derivatives[n]"):
+                            guarded = True
+                shortcuts.append((i, guarded))
+            bad = [i for i, g in shortcuts if not g]
+            C.ob("CL-7", name, "no-unsound-shortcut", not bad, f.loc(bad[0]) if bad else f.where(),
+                 ("%d shortcut store(s) into the local basis, each confined to derivative order > spline order" % len(shortcuts)) if not bad else
+                 "the local basis is filled with a constant at %s without being confined to derivatives[n] > order[n]: the derivative of order "
+                 "exactly `order` is a non-zero piecewise constant" % f.loc(bad[0]))
         if f.name == "ndsplineeval_gradient":
             # lane wiring
             lanes = {}
